@@ -44,6 +44,9 @@ def dispatch_replay(chk, rp):
         MM.replay_file(chk, rp)
     elif kind == "field":
         FF.replay_file(chk, rp)
+    elif kind == "load_then_classify":
+        from . import load_checks as LC
+        LC.replay_load_then_classify(chk, rp)
     else:
         raise SystemExit("cannot replay kind %r" % kind)
 
@@ -62,6 +65,9 @@ def c01(chk, tier):
                       cli_every=10 if q else 5, nontrivial=nt_pairs)
     CC.code_to_spec(chk, 300 if q else 3000, PRES, prefixes=("C01",))
     FF.field_sweep(chk, tier, prefixes=("C01",))
+    # every input triple that Load.tla accepts (different steps, offsets, gaps) must classify: totality
+    from . import load_checks as LC
+    LC.classify_all_loadable(chk, tier)
 
 
 def c02(chk, tier):
